@@ -71,6 +71,9 @@ func SymHash2Str(h SymHash) (PanObject, bool) {
 	if verifEnabled {
 		verifPoint("symhash.tostr")
 	}
+	// make table access goroutine-safe (RLock allow other goroutines to read)
+	lock.RLock()
+	defer lock.RUnlock()
 	strObj, ok := strTable[h]
 	return strObj, ok
 }
